@@ -700,6 +700,8 @@ def g_num(r, depth, in_pred):
     k = r.weighted([("int", 6), ("lit", 3), ("sum", 2), ("number", 2), ("arith", 4 if depth > 0 else 0),
                     ("neg", 1 if depth > 0 else 0), ("fn", 2 if depth > 0 else 0), ("big", 3), ("numstr", 2)])
     if k == "big":
+        if r.chance(1, 5):
+            return T("num", r.choice(["$vn", "$vnan", "$vbig"]))
         return T("num", r.choice(BIG_NUMERALS) if r.chance(1, 2) else g_numeral(r))
     if k == "numstr":
         return T("num", "number('" + g_numeric_string(r) + "')")
@@ -727,6 +729,8 @@ def g_num(r, depth, in_pred):
 def g_str(r, depth, in_pred):
     k = r.weighted([("lit", 4), ("string", 3), ("name", 2), ("fn", 4 if depth > 0 else 0)])
     if k == "lit":
+        if r.chance(1, 8):
+            return T("str", r.choice(["$vs", "$ve", "$vw"]))
         if r.chance(1, 4):
             return T("str", "'" + g_numeric_string(r) + "'")
         return T("str", r.choice(["'a'", "'b'", "'1'", "' 2 '", "''", "'x y'", "'abcde'", "'12345'", "'-1'", "' a\t\tb\n c '", "'  '"]))
@@ -768,6 +772,8 @@ def g_bool(r, depth, in_pred):
     if k == "same":
         return T("bool", "set:has-same-node({0}, {1})", g_ns(r, depth - 1, in_pred), g_ns(r, depth - 1, in_pred))
     if k == "const":
+        if r.chance(1, 3):
+            return T("bool", r.choice(["$vt", "$vf"]))
         if r.chance(1, 2):
             return T("bool", "lang(" + r.choice(["'en'", "'EN'", "'en-us'", "'de'", "'fr'", "'e'", "'en-'"]) + ")")
         return T("bool", r.choice(["true()", "false()"]))
